@@ -1,12 +1,13 @@
 #!/bin/bash
 # tools/eval_seed.sh <PID> <patch.diff> <demo.py> [tier] : confirm a seeded change in a scratch worktree and run the check on it.
 # prints: tests result, demo with/without, check verdict. Worktree removed afterwards.
-pid=$1; patch=$(realpath $2); demo=$(realpath $3); tier=${4:-quick}
+pid=$1; patch=$(realpath $2); demo=$(realpath $3); tier=${4:-quick}; base=${5:-HEAD}
 wt=/tmp/ev_${pid}_$$
-git -C /repo worktree add -q $wt HEAD || exit 2
+git -C /repo worktree add -q --detach $wt $base || exit 2
 cd $wt
+echo "== base commit $(git rev-parse --short HEAD)"
 echo "== demo WITHOUT change"; PYTHONPATH=$wt timeout 300 /venv/bin/python $demo >/tmp/ev_demo0_$$.txt 2>&1; echo "rc=$?"; tail -3 /tmp/ev_demo0_$$.txt
-if ! git apply $patch; then echo "PATCH DOES NOT APPLY"; cd /; git -C /repo worktree remove --force $wt; exit 3; fi
+if ! git apply -3 $patch 2>/dev/null || git diff --name-only --diff-filter=U | grep -q .; then echo "PATCH DOES NOT APPLY (base $base)"; cd /; git -C /repo worktree remove --force $wt; exit 3; fi
 echo "== tests WITH change"; PYTHONPATH=$wt timeout 900 /venv/bin/python -m pytest -q -p no:cacheprovider tests 2>&1 | tail -4
 echo "== demo WITH change"; PYTHONPATH=$wt timeout 300 /venv/bin/python $demo >/tmp/ev_demo1_$$.txt 2>&1; echo "rc=$?"; tail -3 /tmp/ev_demo1_$$.txt
 echo "== check $pid ($tier) WITH change"
